@@ -6,7 +6,7 @@ QuadraticResidue1676.generate / check; inlined callees: fec_utils.get_syndrome_f
 """
 import itertools
 
-from pyvc.contract import contract
+from pyvc.contract import contract, stub, current_vc
 from okdmr.dmrlib.etsi.fec.golay_20_8_7 import Golay2087
 from okdmr.dmrlib.etsi.fec.hamming_7_4_3 import Hamming743
 from okdmr.dmrlib.etsi.fec.hamming_13_9_3 import Hamming1393
@@ -153,3 +153,30 @@ def _nparr(vc, bits):
 
 
 correct_numpy.shapes = lambda tier: [dict(code=c, pos=p) for c, H in HAMMING.items() for p in ((-1, 0, H.CODEWORD_LENGTH - 1) if tier == "quick" else range(-1, H.CODEWORD_LENGTH))]
+
+
+@contract("Hamming.correct_numpy_array.any_word", "okdmr.dmrlib.etsi.fec.hamming_common:HammingCommon.correct_numpy_array", ["C06", "C02", "C07", "C08"])
+def correct_numpy_any(vc, code):
+    """ANY received word (n free bits): never raises, returns n bits, leaves its argument alone, and returns a word
+    that passes the check or the unchanged word"""
+    H = HAMMING[code]
+    n = H.CODEWORD_LENGTH
+    w = vc.bits(n, "w")
+    arr = _nparr(vc, w.tolist())
+    out = aslist(H.correct_numpy_array(arr))
+    vc.prove("returns_n_bits", len(out) == n)
+    vc.prove("frame_argument_unchanged", vc.eq(vc.mkbits(aslist(arr)), w))
+    o = vc.mkbits(out)
+    vc.prove("result_is_a_codeword_or_the_unchanged_word", vc.or_(H.check(o), vc.eq(o, w)))
+
+
+correct_numpy_any.shapes = lambda tier: [dict(code=c) for c in ("Hamming15113", "Hamming1393")]
+
+
+@stub("HammingCommon.correct_numpy_array", "okdmr.dmrlib.etsi.fec.hamming_common:HammingCommon.correct_numpy_array", provided_by="Hamming.correct_numpy_array.any_word")
+def correct_numpy_havoc(cls, bits):
+    """over-approximation for callers that run the repair on arbitrary words: some n bits come back"""
+    import numpy
+
+    vc = current_vc()
+    return numpy.array(vc.havoc_bits(len(bits)).tolist(), dtype=object)
